@@ -81,6 +81,14 @@ type Case struct {
 	Hold      []int    `json:"hold,omitempty"`       // sink calls (arrival order) held until the release phase
 	FailFirst []int    `json:"fail_first,omitempty"` // sink calls that fail once (retryable) before succeeding
 	Fault     *Fault   `json:"fault,omitempty"`
+	ErrResp   []ErrAt  `json:"err_resp,omitempty"` // server error responses (announced recovery)
+}
+
+// ErrAt: after the n-th message sent by the server an ErrorResponse arrives; IDENTIFY_SYSTEM then
+// reports XLogPos, from which replication is re-requested (the announced gap of C01).
+type ErrAt struct {
+	After   int    `json:"after"`
+	XLogPos uint64 `json:"xlogpos"`
 }
 
 type LogEv struct {
@@ -98,20 +106,34 @@ type LogEv struct {
 const tickMs = 2
 
 type world struct {
-	mu       sync.Mutex
-	log      []LogEv
-	t0       time.Time
-	c        Case
-	sh       shutdown.ShutdownHandler
-	sent     int // messages sent by the server so far (all connections)
-	breaks   map[int]bool
-	conn     *pgConn
-	calls    int
-	hold     map[int]chan struct{}
-	failOnce map[int]bool
-	lastCall time.Time
-	progress <-chan uint64
+	mu            sync.Mutex
+	log           []LogEv
+	t0            time.Time
+	c             Case
+	sh            shutdown.ShutdownHandler
+	sent          int // messages sent by the server so far (all connections)
+	breaks        map[int]bool
+	conn          *pgConn
+	calls         int
+	hold          map[int]chan struct{}
+	failOnce      map[int]bool
+	lastCall      time.Time
+	progress      <-chan uint64
+	errAt         map[int]uint64
+	identify      uint64
+	errInfo       []errInfo
+	dataSent      []string // kind of every data message sent so far: begin/change/commit
+	commits       int      // COMMIT messages sent so far
+	deliveredXids map[string]bool
 }
+
+type errInfo struct {
+	class     string
+	xlogpos   uint64
+	delivered map[string]bool // xids whose COMMIT had been sent when the error struck
+}
+
+func init() { _ = errInfo{} }
 
 func (w *world) add(e LogEv) {
 	w.mu.Lock()
@@ -131,6 +153,7 @@ type pgConn struct {
 	closed bool
 	queue  []pgproto3.BackendMessage // remaining messages of this connection's stream
 	pauses []bool
+	kinds  []string // keepalive / begin / change / commit:<xid>
 	first  bool
 }
 
@@ -157,6 +180,7 @@ func (w *world) newConn(start uint64, veryFirst bool) *pgConn {
 	if veryFirst {
 		c.queue = append(c.queue, keepalive(w.c.S0))
 		c.pauses = append(c.pauses, false)
+		c.kinds = append(c.kinds, "keepalive")
 	}
 	for _, t := range w.c.Txns {
 		if t.Commit <= start {
@@ -164,18 +188,26 @@ func (w *world) newConn(start uint64, veryFirst bool) *pgConn {
 		}
 		c.queue = append(c.queue, xlog(t.Begin, "BEGIN "+t.Xid))
 		c.pauses = append(c.pauses, false)
+		c.kinds = append(c.kinds, "begin")
 		for _, ch := range t.Changes {
 			c.queue = append(c.queue, xlog(ch.Lsn, fmt.Sprintf("table %s: INSERT: id[integer]:%d", ch.Table, ch.Lsn)))
 			c.pauses = append(c.pauses, ch.Pause)
+			c.kinds = append(c.kinds, "change")
 		}
 		c.queue = append(c.queue, xlog(t.Commit, "COMMIT "+t.Xid))
 		c.pauses = append(c.pauses, true)
+		c.kinds = append(c.kinds, "commit:"+t.Xid)
 	}
 	return c
 }
 
 func (m *pgMgr) GetConn(ctx context.Context) (conn.Conn, error) {
-	return m.GetConnWithStartLsn(ctx, 0)
+	// the temporary connection of error recovery: no replication stream, answers IDENTIFY_SYSTEM
+	w := m.w
+	if w.conn == nil || w.conn.closed {
+		w.conn = &pgConn{w: w}
+	}
+	return w.conn, nil
 }
 func (m *pgMgr) GetConnWithStartLsn(ctx context.Context, lsn uint64) (conn.Conn, error) {
 	w := m.w
@@ -208,7 +240,7 @@ func (c *pgConn) DropReplicationSlot(context.Context, string, pglogrepl.DropRepl
 	return nil
 }
 func (c *pgConn) IdentifySystem(context.Context) (pglogrepl.IdentifySystemResult, error) {
-	return pglogrepl.IdentifySystemResult{}, nil
+	return pglogrepl.IdentifySystemResult{XLogPos: pglogrepl.LSN(c.w.identify)}, nil
 }
 
 var pendingPause = map[*pgConn]bool{}
@@ -227,6 +259,28 @@ func (c *pgConn) ReceiveMessage(ctx context.Context) (pgproto3.BackendMessage, e
 		w.add(LogEv{K: "fault"})
 		return nil, errors.New("unexpected EOF")
 	}
+	if x, ok := w.errAt[w.sent]; ok {
+		delete(w.errAt, w.sent)
+		w.identify = x
+		class := "inside-transaction"
+		if w.commits == 0 {
+			class = "before-first-commit"
+		} else if n := len(w.dataSent); n > 0 && w.dataSent[n-1] == "commit" {
+			class = "between-transactions"
+		}
+		del := map[string]bool{}
+		for k, v := range w.deliveredXids {
+			del[k] = v
+		}
+		w.errInfo = append(w.errInfo, errInfo{class, x, del})
+		var dl []string
+		for k := range del {
+			dl = append(dl, k)
+		}
+		sort.Strings(dl)
+		w.add(LogEv{K: "error-response", Lsn: x, Key: class, Keys: dl})
+		return &pgproto3.ErrorResponse{Severity: "ERROR", Message: "could not decode"}, nil
+	}
 	if w.breaks[w.sent] {
 		delete(w.breaks, w.sent)
 		c.closed = true
@@ -241,6 +295,16 @@ func (c *pgConn) ReceiveMessage(ctx context.Context) (pgproto3.BackendMessage, e
 	c.queue = c.queue[1:]
 	pz := c.pauses[0]
 	c.pauses = c.pauses[1:]
+	kd := c.kinds[0]
+	c.kinds = c.kinds[1:]
+	if kd != "keepalive" {
+		if strings.HasPrefix(kd, "commit:") {
+			w.commits++
+			w.deliveredXids[kd[7:]] = true
+			kd = "commit"
+		}
+		w.dataSent = append(w.dataSent, kd)
+	}
 	w.sent++
 	if pz {
 		pendingMu.Lock()
@@ -393,7 +457,10 @@ func init() {
 
 func run(c Case) result {
 	sh := shutdown.NewShutdownHandler()
-	w := &world{t0: time.Now(), c: c, sh: sh, breaks: map[int]bool{}, hold: map[int]chan struct{}{}, failOnce: map[int]bool{}}
+	w := &world{t0: time.Now(), c: c, sh: sh, breaks: map[int]bool{}, hold: map[int]chan struct{}{}, failOnce: map[int]bool{}, errAt: map[int]uint64{}, deliveredXids: map[string]bool{}}
+	for _, e := range c.ErrResp {
+		w.errAt[e.After] = e.XLogPos
+	}
 	for _, b := range c.Breaks {
 		w.breaks[b] = true
 	}
@@ -645,8 +712,31 @@ func monitor(c Case, r result) []core.Violation {
 		}
 	}
 	faultAt := -1
+	type gapT struct {
+		x         uint64
+		delivered map[string]bool
+	}
+	var gaps []gapT
+	errClass := ""
+	inGap := func(t Txn) bool {
+		for _, g := range gaps {
+			if t.Commit <= g.x && !g.delivered[t.Xid] {
+				return true
+			}
+		}
+		return false
+	}
 	for i, e := range r.Log {
 		switch e.K {
+		case "error-response":
+			g := gapT{e.Lsn, map[string]bool{}}
+			for _, x := range e.Keys {
+				g.delivered[x] = true
+			}
+			gaps = append(gaps, g)
+			if errClass == "" {
+				errClass = e.Key
+			}
 		case "fault":
 			if faultAt < 0 {
 				faultAt = i
@@ -670,8 +760,8 @@ func monitor(c Case, r result) []core.Violation {
 				continue
 			}
 			for _, t := range c.Txns {
-				if t.Commit > e.Lsn {
-					continue
+				if t.Commit > e.Lsn || inGap(t) {
+					continue // not covered by this acknowledgement, or inside an announced recovery gap
 				}
 				for _, ch := range t.Changes {
 					if passes(c, ch.Table) && !accepted[ch.Lsn] {
@@ -698,10 +788,22 @@ func monitor(c Case, r result) []core.Violation {
 		if stale {
 			sig = "stale-written-after-supersession"
 		}
+		if errClass != "" {
+			sig = "error-recovery/" + errClass
+			if stale {
+				sig += "/with-stale-completion"
+			}
+			lastCommit = 0
+			for _, t := range c.Txns {
+				if !inGap(t) && t.Commit > lastCommit {
+					lastCommit = t.Commit
+				}
+			}
+		}
 		if r.Terminated {
 			add("C02", sig+"/pipeline-stopped-itself", "the pipeline cancelled its own termination context during a fault-free run")
 		} else {
-			if r.LastAck != lastCommit {
+			if r.LastAck != lastCommit && lastCommit != 0 {
 				add("C02", sig, fmt.Sprintf("after everything was delivered and accepted the acknowledged position is %d, the last commit is %d", r.LastAck, lastCommit))
 			}
 			if r.LedgerLeft > 0 || r.IndexLeft > 0 {
@@ -771,6 +873,11 @@ func genCase(rng *rand.Rand) Case {
 		c.Breaks = append(c.Breaks, 2+rng.Intn(nmsg))
 		c.Hold = append(c.Hold, rng.Intn(3))
 		c.Mode = "gen-slow-worker-reconnect"
+	case 9: // announced recovery: a server error response somewhere in the stream
+		at := 1 + rng.Intn(nmsg)
+		pos := c.S0 + uint64(rng.Intn(int(lsn-c.S0)+40))
+		c.ErrResp = []ErrAt{{After: at, XLogPos: pos}}
+		c.Mode = "gen-error-response"
 	case 7, 8: // C17 fault injection
 		kinds := []string{"sink-permanent", "conn-error", "nil-message", "close-channel"}
 		c.Fault = &Fault{Kind: kinds[rng.Intn(len(kinds))], At: rng.Intn(nmsg)}
